@@ -754,6 +754,12 @@ pub struct IfaceProgram {
 /// One to three transactions over shared parties and (two times out of three) an environment; every
 /// transaction has its own parameters and decides on its own whether it reads the environment.
 pub fn interface_program(r: &mut Rng, collide: bool) -> IfaceProgram {
+    interface_program_with(r, collide, None)
+}
+
+/// `special`: the name of the single-use parameter of the first transaction (a name the source of the crates itself
+/// mentions, e.g. that of a built-in symbol).
+pub fn interface_program_with(r: &mut Rng, collide: bool, special: Option<&str>) -> IfaceProgram {
     let sender = cased(r, "sender");
     let receiver = cased(r, "receiver");
     let envv = cased(r, "feecap");
@@ -790,7 +796,10 @@ pub fn interface_program(r: &mut Rng, collide: bool) -> IfaceProgram {
         }
         // one parameter that is used exactly once, at a position that rotates over every place of a
         // transaction body an expression can stand in (whatever walks the IR for its parameters has to reach it)
-        let at = cased(r, &format!("at{k}"));
+        let at = match special {
+            Some(n) if k == 0 => n.to_string(),
+            _ => cased(r, &format!("at{k}")),
+        };
         params.push(at.clone());
         let pos = r.below(16);
         let reg = |entries: &str, items: &str, n: &str| format!("        datum: Reg {{ entries: {{{entries}}}, items: [{items}], n: {n}, }},\n");
@@ -854,7 +863,32 @@ pub fn run_c17(opts: &Opts, out: &mut Emitter) {
             txs: vec![IfaceTx { name: "t".into(), params: vec!["Qty".into()], used: vec!["Qty".into(), "Sender".into(), "Receiver".into()] }],
         },
     ));
+    // names the source of the crates mentions (built-in symbols among them) as parameter names: kept when the front end
+    // accepts the program
+    let pool: Vec<String> = crate::common::magic_names()
+        .into_iter()
+        .filter(|n| n.chars().next().map(|c| c.is_ascii_lowercase()).unwrap_or(false) && n.chars().all(|c| c.is_ascii_lowercase() || c == '_'))
+        .collect();
+    let mut taken = 0usize;
     for k in 0..opts.n {
+        if k % 3 == 2 && !pool.is_empty() {
+            // "fees" and the other built-in names first, then the rest of the pool in rotation
+            let first = ["fees", "min_utxo", "tip_slot", "slot_to_time", "time_to_slot", "ada"];
+            let name = if taken < first.len() { first[taken].to_string() } else { pool[(taken * 7) % pool.len()].clone() };
+            taken += 1;
+            // names the generated program itself gives to something else (an input block shadows a parameter of its
+            // name: the body would not be using the parameter)
+            let own = ["source", "collateral", "sender", "receiver", "feecap", "tokenpolicy", "quantity", "bonus", "unusedparam", "reg", "entries", "items"];
+            if own.contains(&name.as_str()) || name.starts_with("only") || name.starts_with("at") {
+                programs.push(("generated".into(), interface_program(&mut r, false)));
+                continue;
+            }
+            let p = interface_program_with(&mut r, false, Some(&name));
+            if !lower_all(&p.src).is_empty() {
+                programs.push(("named".into(), p));
+                continue;
+            }
+        }
         programs.push((if k % 6 == 5 { "collide".into() } else { "generated".into() }, interface_program(&mut r, k % 6 == 5)));
     }
     for (k, (gen, p)) in programs.iter().enumerate() {
@@ -890,7 +924,7 @@ pub fn run_c17(opts: &Opts, out: &mut Emitter) {
                             // reader; afterwards the template must be closed
                             let request = {
                                 let val = |k: &str| -> Value {
-                                    if k.contains("policy") { json!("0xabcdef12") } else { json!(1) }
+                                    if k == "tokenpolicy" { json!("0xabcdef12") } else { json!(1) }
                                 };
                                 let mut args = serde_json::Map::new();
                                 for k in keys(&t["params"]) {
